@@ -4,7 +4,7 @@
    That the OS stream is unpredictable and independent is NOT shown. *)
 From Coq Require Import ZArith List.
 From Strand Require Import Base.ZUtil Model.Outcome Model.Codec Model.ZBackend Model.Rng Model.Exec
-  Proofs.ZLaws Proofs.ZInst Proofs.CodecP Proofs.ListAlg Proofs.RngP.
+  Proofs.ZLaws Proofs.ZInst Proofs.CodecP Proofs.ListAlg Proofs.RngP Proofs.RngUniform.
 Import ListNotations.
 Open Scope Z_scope.
 
@@ -57,3 +57,37 @@ Theorem C18_fisher_yates_injective : forall n js js', length js = pred n -> leng
   fy (pred n) (iota n) js = fy (pred n) (iota n) js' -> js = js'.
 Proof. exact fy_injective. Qed.
 Print Assumptions C18_fisher_yates_injective.
+
+(* the index draws themselves are EXACTLY uniform (rand 0.8 widening-multiply rejection, no modulo bias): one
+   32-bit word v is accepted with result j iff it lies in a block of exactly 2^lz consecutive words, one block per
+   result, all blocks inside the word range and pairwise disjoint — so every j in [0,ubound) has the same number
+   2^lz of accepting words, for every bound below 2^32. *)
+Theorem C18_index_draw_blocks : forall ub j v, 0 < ub < 2 ^ 32 -> 0 <= v < 2 ^ 32 -> 0 <= j ->
+  (((v * ub) mod 2 ^ 32 <=? u32_zone ub) = true /\ v * ub / 2 ^ 32 = j)
+  <-> (block_start ub j <= v < block_start ub j + 2 ^ (32 - bitlen ub)).
+Proof. exact u32_attempt_block. Qed.
+Print Assumptions C18_index_draw_blocks.
+
+Theorem C18_index_blocks_partition : forall ub, 0 < ub < 2 ^ 32 ->
+  (forall j, 0 <= j < ub -> 0 <= block_start ub j /\ block_start ub j + 2 ^ (32 - bitlen ub) <= 2 ^ 32) /\
+  (forall j j' v, 0 <= j -> 0 <= j' -> 0 <= v < 2 ^ 32 ->
+     block_start ub j <= v < block_start ub j + 2 ^ (32 - bitlen ub) ->
+     block_start ub j' <= v < block_start ub j' + 2 ^ (32 - bitlen ub) -> j = j').
+Proof.
+  intros ub Hub. split; [intros j Hj; exact (u32_blocks_in_word_range ub j Hub Hj)|].
+  intros j j' v Hj Hj' Hv B1 B2. exact (u32_blocks_disjoint ub j j' v Hub Hj Hj' B1 B2 Hv).
+Qed.
+Print Assumptions C18_index_blocks_partition.
+
+Theorem C18_index_sampler_follows_blocks : forall f ub b0 b1 b2 b3 rest, 0 < ub < 2 ^ 32 ->
+  let v := le_int [b0; b1; b2; b3] in 0 <= v < 2 ^ 32 ->
+  (forall j, 0 <= j -> block_start ub j <= v < block_start ub j + 2 ^ (32 - bitlen ub) ->
+     gen_index (S f) ub (b0 :: b1 :: b2 :: b3 :: rest) = Ok (j, rest)) /\
+  ((forall j, 0 <= j < ub -> ~ (block_start ub j <= v < block_start ub j + 2 ^ (32 - bitlen ub))) ->
+     gen_index (S f) ub (b0 :: b1 :: b2 :: b3 :: rest) = gen_index f ub rest).
+Proof.
+  intros f ub b0 b1 b2 b3 rest Hub v Hv. split.
+  - intros j Hj Hb. exact (gen_index_first_word f ub b0 b1 b2 b3 rest j Hub Hj Hv Hb).
+  - intro Hno. exact (gen_index_rejected_word f ub b0 b1 b2 b3 rest Hub Hv Hno).
+Qed.
+Print Assumptions C18_index_sampler_follows_blocks.
